@@ -690,7 +690,7 @@ def invocation_variants(rep, cls, jobs, rng, n=12):
                 rep_opts += g
         variants = [("list options repeated", [sub] + rep_opts, data, None)] if rep_opts != opts else []
         variants += [("input by path", [sub] + opts + [inp], b"", None), ("-q", [sub, "-q"] + opts, data, None), ("-v", [sub, "-v"] + opts, data, None),
-                     ("-vv", [sub, "-vv"] + opts, data, None), ("options reversed", [sub] + rev, data, None), ("path first, options after", [sub, inp] + rev, b"", None)]
+                     ("-vv", [sub, "-vv"] + opts, data, None), ("--debug (what it prints belongs on stderr)", ["--debug", sub] + opts, data, None), ("options reversed", [sub] + rev, data, None), ("path first, options after", [sub, inp] + rev, b"", None)]
         # the name of the input file is no part of the input: the same bytes under names that suggest another format
         for ext in rng.sample(["npy", "txt", "sfs", "vcf", "bcf", "vcf.gz", "gz", "NPY"], 3):
             mis = os.path.join(d, "mis_%d.%s" % (k, ext))
